@@ -14,6 +14,18 @@ SOURCE_IMPORTS = ['ScalesModel.Model.FrontEnd']
 SOURCE_CONSTANTS = {
     'Scales.FrontEnd.resolution': ('import scales.timer_queue as tq', 'round(tq.GLOBAL_TIMER_QUEUE._resolution * 1e6)'),
 }
+SOURCE_SITES = [
+    dict(name='genDeadline', file='scales/dispatch.py', func='MessageDispatcher._DispatchMethod', kind='expr',
+         marker='deadline = start_time',
+         varmap={'start_time': 'start', 'timeout': 'T', 'open_latency': 'lat'}, params=['start', 'T', 'lat'],
+         obligation='theorem genDeadline_eq (start T lat : Int) : genDeadline start T lat = start + T := by\n'
+                    '  unfold genDeadline; omega'),
+    dict(name='genExpired', file='scales/sink.py', func='ClientTimeoutSink.AsyncProcessRequest', kind='cond',
+         marker='deadline < now',
+         varmap={'deadline': 'deadline', 'now': 'now'}, params=['deadline', 'now'],
+         obligation='theorem genExpired_eq (deadline now : Int) : genExpired deadline now = decide (deadline < now) := by\n'
+                    '  unfold genExpired; rfl'),
+]
 ASSUMPTIONS = ['timer queue contract (C10): actions run once, at their rounded deadline on the loop clock',
                'issue instants are off the 10 ms grid and time-outs are not multiples of 10 ms (tie policy, DESIGN 2.4)',
                'blocking get() of the synchronous proxy form is the gevent primitive']
